@@ -11,8 +11,10 @@ Summary of what the model (bug-compatibly) does:
   −32768..65535 and everything outside is an error; division by zero is an error;
 * the mode of the result is extended if an operand is, else direct — except that a result above 255 is extended
   whatever the operands were (fix A13: `$80+$80` used to become a truncated direct operand);
-* `calculate_address_offset` always computes `address op constant`, on whichever side the address is; the
-  constant is a SIGNED number or (since fix 9045646) the ADDRESS of a second label; anything else is a diagnostic.
+* `calculate_address_offset` (repair batch B3) computes `left op right` IN THE WRITTEN ORDER on the two operand values —
+  a label is the ADDRESS of its statement, a number its SIGNED value, anything else is a diagnostic — reduces a result
+  below zero modulo 65536 (every operator) and refuses one above 65535 or a division by zero (`C04_LabelStatement`,
+  `C04_label_full`).  (Before B3: `address op constant` on whichever side the address stood.)
 -/
 import CoCoVerif.Lemmas.EncodeExpr
 import CoCoVerif.Lemmas.EncodeWitness
@@ -179,25 +181,50 @@ theorem resolve_depends_only_on_lookup (v : Value) (t1 t2 : SymTab)
 
 /-! ### address expressions (`calculate_address_offset`)
 
-`NumericValue(int, size_hint=4, mode=EXTENDED)`: only the upper bound 65535 is checked, a negative
-result of any magnitude is accepted.  Since fix 8dc2b21/316e504 a result above 65535 and a division by
-zero are reported as a TranslationError (`diag`); before the fix the exception escaped (`internal`). -/
+Repair batch B3: the two operands are evaluated IN THE WRITTEN ORDER (a label is its statement's address, a number its
+signed value; `AddrOpd`), `left op right` is computed on the integers (division truncates towards zero), a result
+below zero is reduced modulo 65536 — for every operator — and `NumericValue(int, size_hint=4, mode=EXTENDED)` checks
+the upper bound 65535.  A result above 65535 and a division by zero are a TranslationError (`diag`).  (Before B3 the
+model computed `address op constant` on whichever side the address stood, and only `-` wrapped.) -/
+
+/-- the general form with the result named: `left op right = z`, and `n` is `z` (or `z mod 65536` below zero) -/
+theorem addrOffset_res {ss : List Stmt} {l r : Value} {x y : Int} (hl : AddrOpd ss l x) (hr : AddrOpd ss r y)
+    (op : Char) (m : Mode) (ae : Bool) {z : Int} (hz : addrArith op x y = some z) {n : Nat} (hn : addrWrap z = n) :
+    addrOffset ss (.expr l r op m ae) =
+      if n > 65535 then .diag else .ok (.numeric n (some 4) .extended false) := by
+  rw [addrOffset_opd hl hr, hz]
+  simp only [hn, Int.toNat_natCast]
+  by_cases h : n > 65535
+  · have : (n : Int) > 65535 := by omega
+    simp [h, this]
+  · have : ¬ (n : Int) > 65535 := by omega
+    simp [h, this]
+
+/-- ... and when it fits -/
+theorem addrOffset_res_ok {ss : List Stmt} {l r : Value} {x y : Int} (hl : AddrOpd ss l x) (hr : AddrOpd ss r y)
+    (op : Char) (m : Mode) (ae : Bool) {z : Int} (hz : addrArith op x y = some z) {n : Nat} (hn : addrWrap z = n)
+    (hb : n ≤ 65535) :
+    addrOffset ss (.expr l r op m ae) = .ok (.numeric n (some 4) .extended false) := by
+  rw [addrOffset_res hl hr op m ae hz hn]
+  have : ¬ n > 65535 := by omega
+  simp [this]
+
+/-- a NEGATIVE result never fails: it is reduced modulo 65536 -/
+theorem addrOffset_res_neg {ss : List Stmt} {l r : Value} {x y : Int} (hl : AddrOpd ss l x) (hr : AddrOpd ss r y)
+    (op : Char) (m : Mode) (ae : Bool) {z : Int} (hz : addrArith op x y = some z) (hneg : z < 0) :
+    addrOffset ss (.expr l r op m ae) = .ok (.numeric (z % 65536).toNat (some 4) .extended false) :=
+  addrOffset_res_ok hl hr op m ae hz (by rw [addrWrap_of_neg hneg]; omega) (by omega)
 
 section addr
 variable (ss : List Stmt) (ai a k : Nat) (ma mk m : Mode) (hk : Option Nat) (nk ae : Bool)
 
+/-! #### label `op` non-negative constant -/
+
 theorem addrOffset_add (h : addrIntOf ss ai = some a) :
     addrOffset ss (.expr (.address ai ma) (.numeric k hk mk false) '+' m ae) =
-      if a + k > 65535 then .diag else .ok (.numeric (a + k) (some 4) .extended false) := by
-  rw [addrOffset_addr_num ss ai a k ma mk m hk false ae '+' h]
-  have : addrArith '+' a (sInt k false) = some (((a + k : Nat) : Int)) := by simp [addrArith]
-  rw [this]
-  by_cases h' : a + k > 65535
-  · have : ((a + k : Nat) : Int) > 65535 := by omega
-    simp only [addrResult, h', this, if_true]
-  · have h1 : ¬ ((a + k : Nat) : Int) > 65535 := by omega
-    have h2 : ¬ ((a + k : Nat) : Int) < 0 := by omega
-    simp only [addrResult, h', h1, h2, if_false, Int.natAbs_natCast, decide_false]
+      if a + k > 65535 then .diag else .ok (.numeric (a + k) (some 4) .extended false) :=
+  addrOffset_res (.label h) .num _ _ _ (z := ((a + k : Nat) : Int)) (by simp [addrArith])
+    (addrWrap_of_nonneg (by omega))
 
 theorem addrOffset_add_ok (h : addrIntOf ss ai = some a) (hr : a + k ≤ 65535) :
     addrOffset ss (.expr (.address ai ma) (.numeric k hk mk false) '+' m ae) =
@@ -212,97 +239,101 @@ theorem addrOffset_add_overflow (h : addrIntOf ss ai = some a) (hr : a + k > 655
 
 theorem addrOffset_sub_nonneg (h : addrIntOf ss ai = some a) (hr : k ≤ a) (hb : a - k ≤ 65535) :
     addrOffset ss (.expr (.address ai ma) (.numeric k hk mk false) '-' m ae) =
-      .ok (.numeric (a - k) (some 4) .extended false) := by
-  rw [addrOffset_addr_num ss ai a k ma mk m hk false ae '-' h]
-  have : addrArith '-' a (sInt k false) = some (((a - k : Nat) : Int)) := by
-    have : ((a : Int) - k) % 65536 = ((a - k : Nat) : Int) := by omega
-    simp [addrArith, this]
-  rw [this]
-  have h1 : ¬ ((a - k : Nat) : Int) > 65535 := by omega
-  have h2 : ¬ ((a - k : Nat) : Int) < 0 := by omega
-  simp only [addrResult, h1, h2, if_false, Int.natAbs_natCast, decide_false]
+      .ok (.numeric (a - k) (some 4) .extended false) :=
+  addrOffset_res_ok (.label h) .num _ _ _ (z := (a : Int) - k) (by simp [addrArith])
+    (by rw [addrWrap_of_nonneg (by omega)]; omega) hb
 
 /-- a result below zero is reduced modulo 65536 (since fix 1477b47; before it the magnitude `k - a` was stored
 with the sign flag and encoded as a positive word) -/
 theorem addrOffset_sub_neg (h : addrIntOf ss ai = some a) (hr : a < k) (hk16 : k - a ≤ 65536) :
     addrOffset ss (.expr (.address ai ma) (.numeric k hk mk false) '-' m ae) =
-      .ok (.numeric (65536 - (k - a)) (some 4) .extended false) := by
-  rw [addrOffset_addr_num ss ai a k ma mk m hk false ae '-' h]
-  have : addrArith '-' a (sInt k false) = some (((65536 - (k - a) : Nat) : Int)) := by
-    have : ((a : Int) - k) % 65536 = ((65536 - (k - a) : Nat) : Int) := by omega
-    simp [addrArith, this]
-  rw [this]
-  have h1 : ¬ ((65536 - (k - a) : Nat) : Int) > 65535 := by omega
-  have h2 : ¬ ((65536 - (k - a) : Nat) : Int) < 0 := by omega
-  simp only [addrResult, h1, h2, if_false, Int.natAbs_natCast, decide_false]
+      .ok (.numeric (65536 - (k - a)) (some 4) .extended false) :=
+  addrOffset_res_ok (.label h) .num _ _ _ (z := (a : Int) - k) (by simp [addrArith])
+    (by rw [addrWrap_of_neg (by omega)]; omega) (by omega)
 
-/-- subtraction never fails and always lands in 0..65535 -/
-theorem addrOffset_sub_total (h : addrIntOf ss ai = some a) :
+/-- subtraction of a constant from an address below 65536 never fails and always lands in 0..65535 -/
+theorem addrOffset_sub_total (h : addrIntOf ss ai = some a) (ha : a ≤ 65535) :
     ∃ z, z ≤ 65535 ∧ addrOffset ss (.expr (.address ai ma) (.numeric k hk mk false) '-' m ae) =
       .ok (.numeric z (some 4) .extended false) ∧ (z : Int) = ((a : Int) - k) % 65536 := by
-  rw [addrOffset_addr_num ss ai a k ma mk m hk false ae '-' h]
-  refine ⟨(((a : Int) - k) % 65536).toNat, by omega, ?_, by omega⟩
-  have h0 : addrArith '-' a (sInt k false) = some (((a : Int) - k) % 65536) := by simp [addrArith]
-  rw [h0]
-  have h1 : ¬ (((a : Int) - k) % 65536) > 65535 := by omega
-  have h2 : ¬ (((a : Int) - k) % 65536) < 0 := by omega
-  have h3 : (((a : Int) - k) % 65536).natAbs = (((a : Int) - k) % 65536).toNat := by omega
-  simp only [addrResult, h1, h2, if_false, decide_false, h3]
+  by_cases hlt : (a : Int) - k < 0
+  · exact ⟨(((a : Int) - k) % 65536).toNat, by omega,
+      addrOffset_res_neg (.label h) .num _ _ _ (by simp [addrArith]) hlt, by omega⟩
+  · exact ⟨a - k, by omega,
+      addrOffset_res_ok (.label h) .num _ _ _ (z := (a : Int) - k) (by simp [addrArith])
+        (by rw [addrWrap_of_nonneg (by omega)]; omega) (by omega), by omega⟩
 
 theorem addrOffset_mul (h : addrIntOf ss ai = some a) :
     addrOffset ss (.expr (.address ai ma) (.numeric k hk mk false) '*' m ae) =
-      if a * k > 65535 then .diag else .ok (.numeric (a * k) (some 4) .extended false) := by
-  rw [addrOffset_addr_num ss ai a k ma mk m hk false ae '*' h]
-  have : addrArith '*' a (sInt k false) = some (((a * k : Nat) : Int)) := by simp [addrArith]
-  rw [this]
-  by_cases h' : a * k > 65535
-  · have : ((a * k : Nat) : Int) > 65535 := by omega
-    simp only [addrResult, h', this, if_true]
-  · have h1 : ¬ ((a * k : Nat) : Int) > 65535 := by omega
-    have h2 : ¬ ((a * k : Nat) : Int) < 0 := by omega
-    simp only [addrResult, h', h1, h2, if_false, Int.natAbs_natCast, decide_false]
+      if a * k > 65535 then .diag else .ok (.numeric (a * k) (some 4) .extended false) :=
+  addrOffset_res (.label h) .num _ _ _ (z := ((a * k : Nat) : Int)) (by simp [addrArith])
+    (addrWrap_of_nonneg (Int.natCast_nonneg _))
 
 theorem addrOffset_div_zero (h : addrIntOf ss ai = some a) :
-    addrOffset ss (.expr (.address ai ma) (.numeric 0 hk mk false) '/' m ae) = .diag := by
-  rw [addrOffset_addr_num ss ai a 0 ma mk m hk false ae '/' h]; rfl
+    addrOffset ss (.expr (.address ai ma) (.numeric 0 hk mk nk) '/' m ae) = .diag := by
+  rw [addrOffset_opd (.label h) .num]
+  cases nk <;> rfl
 
 theorem addrOffset_div (h : addrIntOf ss ai = some a) (hk0 : k ≠ 0) (hb : a / k ≤ 65535) :
     addrOffset ss (.expr (.address ai ma) (.numeric k hk mk false) '/' m ae) =
-      .ok (.numeric (a / k) (some 4) .extended false) := by
-  rw [addrOffset_addr_num ss ai a k ma mk m hk false ae '/' h]
-  have : addrArith '/' a (sInt k false) = some (((a / k : Nat) : Int)) := by simp [addrArith, hk0]
-  rw [this]
-  have h1 : ¬ ((a / k : Nat) : Int) > 65535 := by omega
-  have h2 : ¬ ((a / k : Nat) : Int) < 0 := Int.not_lt.mpr (Int.natCast_nonneg _)
-  simp only [addrResult, h1, h2, if_false, Int.natAbs_natCast, decide_false]
+      .ok (.numeric (a / k) (some 4) .extended false) :=
+  addrOffset_res_ok (.label h) .num _ _ _ (z := ((a / k : Nat) : Int)) (by simp [addrArith, hk0])
+    (addrWrap_of_nonneg (Int.natCast_nonneg _)) hb
 
-/-- the mirrored form (constant on the left, address on the right) computes exactly the same thing:
-`address op constant` -/
-theorem addrOffset_mirror (op : Char) (h : addrIntOf ss ai = some a) :
-    addrOffset ss (.expr (.numeric k hk mk nk) (.address ai ma) op m ae) =
-      addrOffset ss (.expr (.address ai ma) (.numeric k hk mk nk) op m ae) := by
-  rw [addrOffset_num_addr ss ai a k ma mk m hk nk ae op h, addrOffset_addr_num ss ai a k ma mk m hk nk ae op h]
+/-! #### non-negative constant `op` label: the WRITTEN order (repair batch B3) -/
+
+/-- `+` and `*` commute, so the mirrored spelling gives the same result ... -/
+theorem addrOffset_mirror_add (h : addrIntOf ss ai = some a) :
+    addrOffset ss (.expr (.numeric k hk mk nk) (.address ai ma) '+' m ae) =
+      addrOffset ss (.expr (.address ai ma) (.numeric k hk mk nk) '+' m ae) := by
+  rw [addrOffset_opd .num (.label h), addrOffset_opd (.label h) .num]
+  simp [addrArith, Int.add_comm]
+
+theorem addrOffset_mirror_mul (h : addrIntOf ss ai = some a) :
+    addrOffset ss (.expr (.numeric k hk mk nk) (.address ai ma) '*' m ae) =
+      addrOffset ss (.expr (.address ai ma) (.numeric k hk mk nk) '*' m ae) := by
+  rw [addrOffset_opd .num (.label h), addrOffset_opd (.label h) .num]
+  simp [addrArith, Int.mul_comm]
 
 theorem addrOffset_mirror_add_ok (h : addrIntOf ss ai = some a) (hr : a + k ≤ 65535) :
     addrOffset ss (.expr (.numeric k hk mk false) (.address ai ma) '+' m ae) =
       .ok (.numeric (a + k) (some 4) .extended false) := by
-  rw [addrOffset_mirror ss ai a k ma mk m hk false ae '+' h]
+  rw [addrOffset_mirror_add ss ai a k ma mk m hk false ae h]
   exact addrOffset_add_ok ss ai a k ma mk m hk ae h hr
 
-/-- `k - LABEL` with `k ≤ address`: the model returns `address - k` (non-negative) -/
-theorem addrOffset_mirror_sub (h : addrIntOf ss ai = some a) (hr : k ≤ a) (hb : a - k ≤ 65535) :
+/-- ... `k - LABEL` is `k` minus the address: non-negative when the address is not above `k` ... -/
+theorem addrOffset_num_sub_label (h : addrIntOf ss ai = some a) (hr : a ≤ k) (hb : k - a ≤ 65535) :
     addrOffset ss (.expr (.numeric k hk mk false) (.address ai ma) '-' m ae) =
-      .ok (.numeric (a - k) (some 4) .extended false) := by
-  rw [addrOffset_mirror ss ai a k ma mk m hk false ae '-' h]
-  exact addrOffset_sub_nonneg ss ai a k ma mk m hk ae h hr hb
+      .ok (.numeric (k - a) (some 4) .extended false) :=
+  addrOffset_res_ok .num (.label h) _ _ _ (z := (k : Int) - a) (by simp [addrArith])
+    (by rw [addrWrap_of_nonneg (by omega)]; omega) hb
+
+/-- ... and reduced modulo 65536 when the address is above `k` (`5-LABEL` with the label at 100 is 65536 − 95; before
+the repair the model answered `LABEL-5` = 95) -/
+theorem addrOffset_num_sub_label_neg (h : addrIntOf ss ai = some a) (hr : k < a) (hb : a - k ≤ 65536) :
+    addrOffset ss (.expr (.numeric k hk mk false) (.address ai ma) '-' m ae) =
+      .ok (.numeric (65536 - (a - k)) (some 4) .extended false) :=
+  addrOffset_res_ok .num (.label h) _ _ _ (z := (k : Int) - a) (by simp [addrArith])
+    (by rw [addrWrap_of_neg (by omega)]; omega) (by omega)
+
+/-- `k/LABEL` divides the constant BY the address (before the repair: the address by the constant) -/
+theorem addrOffset_num_div_label (h : addrIntOf ss ai = some a) (ha0 : a ≠ 0) (hb : k / a ≤ 65535) :
+    addrOffset ss (.expr (.numeric k hk mk false) (.address ai ma) '/' m ae) =
+      .ok (.numeric (k / a) (some 4) .extended false) :=
+  addrOffset_res_ok .num (.label h) _ _ _ (z := ((k / a : Nat) : Int)) (by simp [addrArith, ha0])
+    (addrWrap_of_nonneg (Int.natCast_nonneg _)) hb
+
+/-- `k/LABEL` with the label at address 0: division by zero, a diagnostic -/
+theorem addrOffset_num_div_label_zero (h : addrIntOf ss ai = some 0) :
+    addrOffset ss (.expr (.numeric k hk mk nk) (.address ai ma) '/' m ae) = .diag := by
+  rw [addrOffset_opd .num (.label h)]; rfl
 
 end addr
 
 /-! ### label `op` label, and operands that are neither (since fix 9045646)
 
-The "other" operand of a label expression is the ADDRESS of its statement when it is itself a label, its number
-when numeric, and anything else is an "unresolved expression" diagnostic.  (Before the repair the STATEMENT
-INDEX of a second label, or the `.int` of an arbitrary value, was used as the constant.) -/
+Each operand of a label expression is the ADDRESS of its statement when it is a label, its signed number when numeric,
+and anything else is an "unresolved expression" diagnostic.  (Before fix 9045646 the STATEMENT INDEX of a second
+label, or the `.int` of an arbitrary value, was used as the constant.) -/
 
 section addr2
 variable (ss : List Stmt) (ai aj a b : Nat) (ma mb m : Mode) (ae : Bool)
@@ -311,65 +342,70 @@ variable (ss : List Stmt) (ai aj a b : Nat) (ma mb m : Mode) (ae : Bool)
 theorem addrOffset_label_sub_label (h : addrIntOf ss ai = some a) (h' : addrIntOf ss aj = some b)
     (hr : b ≤ a) (hb : a - b ≤ 65535) :
     addrOffset ss (.expr (.address ai ma) (.address aj mb) '-' m ae) =
-      .ok (.numeric (a - b) (some 4) .extended false) := by
-  rw [addrOffset_addr_addr ss ai aj a b ma mb m ae '-' h h']
-  have : addrArith '-' a (b : Int) = some (((a - b : Nat) : Int)) := by
-    have : ((a : Int) - b) % 65536 = ((a - b : Nat) : Int) := by omega
-    simp [addrArith, this]
-  rw [this]
-  have h1 : ¬ ((a - b : Nat) : Int) > 65535 := by omega
-  have h2 : ¬ ((a - b : Nat) : Int) < 0 := by omega
-  simp only [addrResult, h1, h2, if_false, Int.natAbs_natCast, decide_false]
+      .ok (.numeric (a - b) (some 4) .extended false) :=
+  addrOffset_res_ok (.label h) (.label h') _ _ _ (z := (a : Int) - b) (by simp [addrArith])
+    (by rw [addrWrap_of_nonneg (by omega)]; omega) hb
 
 /-- `L1 - L2` with `L1` below `L2`: the difference reduced modulo 65536 (since fix 1477b47) -/
 theorem addrOffset_label_sub_label_neg (h : addrIntOf ss ai = some a) (h' : addrIntOf ss aj = some b)
     (hr : a < b) (hb16 : b - a ≤ 65536) :
     addrOffset ss (.expr (.address ai ma) (.address aj mb) '-' m ae) =
-      .ok (.numeric (65536 - (b - a)) (some 4) .extended false) := by
-  rw [addrOffset_addr_addr ss ai aj a b ma mb m ae '-' h h']
-  have : addrArith '-' a (b : Int) = some (((65536 - (b - a) : Nat) : Int)) := by
-    have : ((a : Int) - b) % 65536 = ((65536 - (b - a) : Nat) : Int) := by omega
-    simp [addrArith, this]
-  rw [this]
-  have h1 : ¬ ((65536 - (b - a) : Nat) : Int) > 65535 := by omega
-  have h2 : ¬ ((65536 - (b - a) : Nat) : Int) < 0 := by omega
-  simp only [addrResult, h1, h2, if_false, Int.natAbs_natCast, decide_false]
+      .ok (.numeric (65536 - (b - a)) (some 4) .extended false) :=
+  addrOffset_res_ok (.label h) (.label h') _ _ _ (z := (a : Int) - b) (by simp [addrArith])
+    (by rw [addrWrap_of_neg (by omega)]; omega) (by omega)
 
 /-- `L1 + L2`: the sum of the two addresses, a diagnostic when it does not fit 16 bits -/
 theorem addrOffset_label_add_label (h : addrIntOf ss ai = some a) (h' : addrIntOf ss aj = some b) :
     addrOffset ss (.expr (.address ai ma) (.address aj mb) '+' m ae) =
-      if a + b > 65535 then .diag else .ok (.numeric (a + b) (some 4) .extended false) := by
-  rw [addrOffset_addr_addr ss ai aj a b ma mb m ae '+' h h']
-  have : addrArith '+' a (b : Int) = some (((a + b : Nat) : Int)) := by simp [addrArith]
-  rw [this]
-  by_cases h'' : a + b > 65535
-  · have : ((a + b : Nat) : Int) > 65535 := by omega
-    simp only [addrResult, h'', this, if_true]
-  · have h1 : ¬ ((a + b : Nat) : Int) > 65535 := by omega
-    have h2 : ¬ ((a + b : Nat) : Int) < 0 := by omega
-    simp only [addrResult, h'', h1, h2, if_false, Int.natAbs_natCast, decide_false]
+      if a + b > 65535 then .diag else .ok (.numeric (a + b) (some 4) .extended false) :=
+  addrOffset_res (.label h) (.label h') _ _ _ (z := ((a + b : Nat) : Int)) (by simp [addrArith])
+    (addrWrap_of_nonneg (by omega))
 
-/-- label `op` label in general: exactly what label `op` number computes for the number `address(L2)` -/
+/-- `L1 * L2`: the product of the two addresses, a diagnostic when it does not fit 16 bits -/
+theorem addrOffset_label_mul_label (h : addrIntOf ss ai = some a) (h' : addrIntOf ss aj = some b) :
+    addrOffset ss (.expr (.address ai ma) (.address aj mb) '*' m ae) =
+      if a * b > 65535 then .diag else .ok (.numeric (a * b) (some 4) .extended false) :=
+  addrOffset_res (.label h) (.label h') _ _ _ (z := ((a * b : Nat) : Int)) (by simp [addrArith])
+    (addrWrap_of_nonneg (Int.natCast_nonneg _))
+
+/-- `L1 / L2`: the quotient of the two addresses; `L2` at address 0 is a division by zero (a diagnostic) -/
+theorem addrOffset_label_div_label (h : addrIntOf ss ai = some a) (h' : addrIntOf ss aj = some b) :
+    addrOffset ss (.expr (.address ai ma) (.address aj mb) '/' m ae) =
+      if b = 0 then .diag else if a / b > 65535 then .diag else .ok (.numeric (a / b) (some 4) .extended false) := by
+  by_cases hb0 : b = 0
+  · subst hb0; rw [addrOffset_opd (.label h) (.label h')]; simp [addrArith]
+  · rw [if_neg hb0]
+    exact addrOffset_res (.label h) (.label h') _ _ _ (z := ((a / b : Nat) : Int)) (by simp [addrArith, hb0])
+      (addrWrap_of_nonneg (Int.natCast_nonneg _))
+
+/-- label `op` label in general: exactly what label `op` number computes for the number `address(L2)` ... -/
 theorem addrOffset_label_label_as_number (op : Char) (hk : Option Nat) (mk : Mode)
     (h : addrIntOf ss ai = some a) (h' : addrIntOf ss aj = some b) :
     addrOffset ss (.expr (.address ai ma) (.address aj mb) op m ae) =
       addrOffset ss (.expr (.address ai ma) (.numeric b hk mk false) op m ae) := by
-  rw [addrOffset_addr_addr ss ai aj a b ma mb m ae op h h', addrOffset_addr_num ss ai a b ma mk m hk false ae op h]
-  rfl
+  rw [addrOffset_opd (.label h) (.label h'), addrOffset_opd (.label h) .num]; rfl
+
+/-- ... and what number `op` label computes for the number `address(L1)` -/
+theorem addrOffset_label_label_as_number_left (op : Char) (hk : Option Nat) (mk : Mode)
+    (h : addrIntOf ss ai = some a) (h' : addrIntOf ss aj = some b) :
+    addrOffset ss (.expr (.address ai ma) (.address aj mb) op m ae) =
+      addrOffset ss (.expr (.numeric a hk mk false) (.address aj mb) op m ae) := by
+  rw [addrOffset_opd (.label h) (.label h'), addrOffset_opd .num (.label h')]; rfl
 
 /-- the statement INDEX of the second label plays no role: two labels with the same address are interchangeable -/
 theorem addrOffset_label_label_index_irrelevant (op : Char) (aj' : Nat)
     (h : addrIntOf ss ai = some a) (h' : addrIntOf ss aj = some b) (h'' : addrIntOf ss aj' = some b) :
     addrOffset ss (.expr (.address ai ma) (.address aj mb) op m ae) =
       addrOffset ss (.expr (.address ai ma) (.address aj' mb) op m ae) := by
-  rw [addrOffset_addr_addr ss ai aj a b ma mb m ae op h h', addrOffset_addr_addr ss ai aj' a b ma mb m ae op h h'']
+  rw [addrOffset_opd (.label h) (.label h'), addrOffset_opd (.label h) (.label h'')]
 
-/-- an operand that is neither a number nor a label next to a label: "unresolved expression" (a diagnostic),
-on either side -/
-theorem addrOffset_unresolved (op : Char) (v : Value) (hv1 : v.isAddress = false) (hv2 : v.isNumeric = false) :
+/-- an operand that is neither a number nor a label next to a label (that names a statement): "unresolved expression"
+(a diagnostic), on either side -/
+theorem addrOffset_unresolved (op : Char) (v : Value) (h : addrIntOf ss ai = some a)
+    (hv1 : v.isAddress = false) (hv2 : v.isNumeric = false) :
     addrOffset ss (.expr (.address ai ma) v op m ae) = .diag ∧
     addrOffset ss (.expr v (.address ai ma) op m ae) = .diag :=
-  ⟨addrOffset_addr_other ss ai ma m ae op v hv1 hv2, addrOffset_other_addr ss ai ma m ae op v hv1 hv2⟩
+  ⟨addrOffset_addr_other ss ai a ma m ae op v h hv1 hv2, addrOffset_other_addr ss m ae op v _ hv1 hv2⟩
 
 end addr2
 
@@ -386,7 +422,7 @@ theorem C04_label_minus_label_concrete :
 /-- `X EQU 1,2` leaves `X` a value that is neither number nor label: `X-L` is an unresolved expression -/
 theorem C04_unresolved_concrete (ss : List Stmt) :
     addrOffset ss (.expr (.leftRight "1".toList "2".toList .none) (.address 0 .none) '-' .extended true) = .diag :=
-  (addrOffset_unresolved ss 0 .none .extended true '-' _ rfl rfl).2
+  addrOffset_other_addr ss .extended true '-' _ _ rfl rfl
 
 /-! ### operands of either sign (repair batch B2: `signed()` instead of `.int`) -/
 
@@ -432,39 +468,60 @@ example : modelArith '+' (sInt 5 true) (sInt 3 false) = some (-2) ∧ modelArith
     modelArith '/' (sInt 7 true) (sInt 2 false) = some (-3) ∧ modelArith '-' (sInt 5 true) (sInt 3 true) = some (-2) := by
   decide
 
-/-- **label ± signed constant**: `calculate_address_offset` with a constant of either sign -/
+/-- **label `op` signed constant**: `calculate_address_offset` with a constant of either sign -/
 theorem addrOffset_signed (ss : List Stmt) (ai a k : Nat) (ma mk m : Mode) (hk : Option Nat) (nk ae : Bool) (op : Char)
     (h : addrIntOf ss ai = some a) :
     addrOffset ss (.expr (.address ai ma) (.numeric k hk mk nk) op m ae) =
-      (match addrArith op a (sInt k nk) with | none => .diag | some z => addrResult z) :=
+      (match addrArith op a (sInt k nk) with | none => .diag | some z => addrResult (addrWrap z)) :=
   addrOffset_addr_num ss ai a k ma mk m hk nk ae op h
 
-/-- `L + X` with `X EQU -k`, k not above the address of `L`: the address minus `k` (before the repair: plus `k`) -/
+/-- **signed constant `op` label**, in the written order -/
+theorem addrOffset_signed_left (ss : List Stmt) (ai a k : Nat) (ma mk m : Mode) (hk : Option Nat) (nk ae : Bool) (op : Char)
+    (h : addrIntOf ss ai = some a) :
+    addrOffset ss (.expr (.numeric k hk mk nk) (.address ai ma) op m ae) =
+      (match addrArith op (sInt k nk) a with | none => .diag | some z => addrResult (addrWrap z)) :=
+  addrOffset_num_addr ss ai a k ma mk m hk nk ae op h
+
+/-- `L + X` with `X EQU -k`, k not above the address of `L`: the address minus `k` (before repair B2: plus `k`) -/
 theorem addrOffset_add_negative (ss : List Stmt) (ai a k : Nat) (ma mk m : Mode) (hk : Option Nat) (ae : Bool)
     (h : addrIntOf ss ai = some a) (hle : k ≤ a) (hb : a - k ≤ 65535) :
     addrOffset ss (.expr (.address ai ma) (.numeric k hk mk true) '+' m ae) =
-      .ok (.numeric (a - k) (some 4) .extended false) := by
-  rw [addrOffset_signed ss ai a k ma mk m hk true ae '+' h]
-  have : addrArith '+' a (sInt k true) = some (((a - k : Nat) : Int)) := by
-    have : (a : Int) + -(k : Int) = ((a - k : Nat) : Int) := by omega
-    simp [addrArith, this]
-  rw [this]
-  have h1 : ¬ ((a - k : Nat) : Int) > 65535 := by omega
-  have h2 : ¬ ((a - k : Nat) : Int) < 0 := by omega
-  simp only [addrResult, h1, h2, if_false, Int.natAbs_natCast, decide_false]
+      .ok (.numeric (a - k) (some 4) .extended false) :=
+  addrOffset_res_ok (.label h) .num _ _ _ (z := (a : Int) + -(k : Int)) (by simp [addrArith])
+    (by rw [addrWrap_of_nonneg (by omega)]; omega) hb
 
-/-- `L - X` with `X EQU -k`: the address plus `k`, modulo 65536 -/
+/-- `L + X` with `X EQU -k`, k ABOVE the address of `L`: the address minus `k` modulo 65536 (repair batch B3; before it
+the result kept its minus sign and a `L+X,PCR` operand aimed `k` bytes BEHIND the label, `C03_pcr_plus_negative_finding`) -/
+theorem addrOffset_add_negative_wrap (ss : List Stmt) (ai a k : Nat) (ma mk m : Mode) (hk : Option Nat) (ae : Bool)
+    (h : addrIntOf ss ai = some a) (hlt : a < k) (hb : k - a ≤ 65536) :
+    addrOffset ss (.expr (.address ai ma) (.numeric k hk mk true) '+' m ae) =
+      .ok (.numeric (65536 - (k - a)) (some 4) .extended false) :=
+  addrOffset_res_ok (.label h) .num _ _ _ (z := (a : Int) + -(k : Int)) (by simp [addrArith])
+    (by rw [addrWrap_of_neg (by omega)]; omega) (by omega)
+
+/-- `L - X` with `X EQU -k`: the address plus `k`; a diagnostic when that leaves the 16 bits (since repair batch B3 only
+results BELOW zero are reduced; before, every difference was taken modulo 65536) -/
 theorem addrOffset_sub_negative (ss : List Stmt) (ai a k : Nat) (ma mk m : Mode) (hk : Option Nat) (ae : Bool)
     (h : addrIntOf ss ai = some a) :
     addrOffset ss (.expr (.address ai ma) (.numeric k hk mk true) '-' m ae) =
-      .ok (.numeric ((a + k) % 65536) (some 4) .extended false) := by
-  rw [addrOffset_signed ss ai a k ma mk m hk true ae '-' h]
-  have : addrArith '-' a (sInt k true) = some ((((a + k) % 65536 : Nat) : Int)) := by
-    simp [addrArith]
-  rw [this]
-  have h1 : ¬ (((a + k) % 65536 : Nat) : Int) > 65535 := by omega
-  have h2 : ¬ (((a + k) % 65536 : Nat) : Int) < 0 := by omega
-  simp only [addrResult, h1, h2, if_false, Int.natAbs_natCast, decide_false]
+      if a + k > 65535 then .diag else .ok (.numeric (a + k) (some 4) .extended false) :=
+  addrOffset_res (.label h) .num _ _ _ (z := ((a + k : Nat) : Int)) (by simp [addrArith])
+    (addrWrap_of_nonneg (by omega))
+
+/-- `L * X` with `X EQU -k`: minus the product, modulo 65536 -/
+theorem addrOffset_mul_negative (ss : List Stmt) (ai a k : Nat) (ma mk m : Mode) (hk : Option Nat) (ae : Bool)
+    (h : addrIntOf ss ai = some a) (hpos : 0 < a * k) :
+    addrOffset ss (.expr (.address ai ma) (.numeric k hk mk true) '*' m ae) =
+      .ok (.numeric ((-((a * k : Nat) : Int)) % 65536).toNat (some 4) .extended false) :=
+  addrOffset_res_neg (.label h) .num _ _ _ (z := -((a * k : Nat) : Int)) (by simp [addrArith, Int.mul_neg]) (by omega)
+
+/-- `X - L` with `X EQU -k`: minus (k + address), modulo 65536 -/
+theorem addrOffset_negative_sub_label (ss : List Stmt) (ai a k : Nat) (ma mk m : Mode) (hk : Option Nat) (ae : Bool)
+    (h : addrIntOf ss ai = some a) (hpos : 0 < k + a) :
+    addrOffset ss (.expr (.numeric k hk mk true) (.address ai ma) '-' m ae) =
+      .ok (.numeric ((-((k + a : Nat) : Int)) % 65536).toNat (some 4) .extended false) :=
+  addrOffset_res_neg .num (.label h) _ _ _ (z := -((k + a : Nat) : Int))
+    (by simp [addrArith]; omega) (by omega)
 
 /-! ### a negative value as a memory operand: extended, the address modulo 65536 -/
 
@@ -498,25 +555,29 @@ theorem C04_finding_neg_operand_ignored_fixed :
       (by decide)]
   rfl
 
-/-- FINDING: `5-LABEL` (constant minus address) is computed as `LABEL-5`.  With the label at address 100
-the model answers +95; arithmetic says −95. -/
-theorem C04_finding_const_minus_address (ss : List Stmt) (ai : Nat) (h : addrIntOf ss ai = some 100) :
+/-- REPAIRED (batch B3; formerly `C04_finding_const_minus_address`: `5-LABEL` was computed as `LABEL-5`, +95 with the
+label at address 100): constant minus address, −95, stored modulo 65536 as 65441 = `$FFA1` -/
+theorem C04_finding_const_minus_address_fixed (ss : List Stmt) (ai : Nat) (h : addrIntOf ss ai = some 100) :
     addrOffset ss (.expr (.numeric 5 (some 2) .direct false) (.address ai .none) '-' .extended true) =
-      .ok (.numeric 95 (some 4) .extended false) :=
-  addrOffset_mirror_sub ss ai 100 5 _ _ _ _ _ h (by decide) (by decide)
+      .ok (.numeric 65441 (some 4) .extended false) :=
+  addrOffset_num_sub_label_neg ss ai 100 5 _ _ _ _ _ h (by decide) (by decide)
 
-/-- the same finding on a concrete one-statement program -/
-theorem C04_finding_const_minus_address_concrete :
+/-- the same on a concrete one-statement program -/
+theorem C04_finding_const_minus_address_concrete_fixed :
     addrOffset [{ (default : Stmt) with pkg := { address := .numeric 100 (some 4) .extended false } }]
         (.expr (.numeric 5 (some 2) .direct false) (.address 0 .none) '-' .extended true) =
-      .ok (.numeric 95 (some 4) .extended false) :=
-  C04_finding_const_minus_address _ 0 rfl
+      .ok (.numeric 65441 (some 4) .extended false) :=
+  C04_finding_const_minus_address_fixed _ 0 rfl
 
-/-- FINDING: `20/LABEL` (constant divided by address) is computed as `LABEL/20` -/
-theorem C04_finding_const_div_address (ss : List Stmt) (ai : Nat) (h : addrIntOf ss ai = some 100) :
+/-- REPAIRED (batch B3; formerly `C04_finding_const_div_address`: `20/LABEL` was computed as `LABEL/20` = 5): the
+constant divided by the address, 20/100 = 0; and `$4000/LABEL` with the label at 100 is 163 -/
+theorem C04_finding_const_div_address_fixed (ss : List Stmt) (ai : Nat) (h : addrIntOf ss ai = some 100) :
     addrOffset ss (.expr (.numeric 20 (some 2) .direct false) (.address ai .none) '/' .extended true) =
-      .ok (.numeric 5 (some 4) .extended false) := by
-  rw [addrOffset_num_addr ss ai 100 20 _ _ _ _ _ _ '/' h]; rfl
+      .ok (.numeric 0 (some 4) .extended false) ∧
+    addrOffset ss (.expr (.numeric 0x4000 none .extended false) (.address ai .none) '/' .extended true) =
+      .ok (.numeric 163 (some 4) .extended false) :=
+  ⟨addrOffset_num_div_label ss ai 100 20 _ _ _ _ _ h (by decide) (by decide),
+   addrOffset_num_div_label ss ai 100 0x4000 _ _ _ _ _ h (by decide) (by decide)⟩
 
 /-! ### the result mode (fix A13) and the sign of the result (batch B2) -/
 
@@ -566,15 +627,16 @@ theorem C04_finding_negative_result_loses_sign_fixed :
 theorem C04_finding_equ_expression (fs : Files) :
     assemble fs ["X EQU 1+2\n".toList, " LDA #X\n".toList] = .diag := progDiag_sound (by decide +kernel) fs
 
-/-- STILL A FINDING (C3): a label as a constant (non-PCR) index offset is rejected -/
-theorem C04_finding_label_index_offset (fs : Files) :
-    assemble fs ["L NOP\n".toList, " LDA L,X\n".toList] = .diag := progDiag_sound (by decide +kernel) fs
-
 /-- whole-program witness: the image of an INCLUDE-free program -/
 theorem image_of (lines : List Str) (img : Bytes) (h : progCheck lines (fun a => a.image == some img) = true)
-    (fs : Files) : ∃ a, assemble fs lines = .ok a ∧ a.image = some img := by
-  obtain ⟨a, ha, hc⟩ := progCheck_sound (check := fun a => a.image == some img) (lines := lines) h fs
-  exact ⟨a, ha, by simpa using hc⟩
+    (fs : Files) : ∃ a, assemble fs lines = .ok a ∧ a.image = some img := progImage_sound h fs
+
+/-- REPAIRED (batch B3, C3; formerly `C04_finding_label_index_offset`: a diagnostic): a label as a constant (non-PCR)
+index offset is assembled in the 16-bit offset form, the label's ADDRESS being the offset: `L` at 0, `LDA L,X` is
+`A6 89 00 00` -/
+theorem C04_finding_label_index_offset_fixed (fs : Files) :
+    ∃ a, assemble fs ["L NOP\n".toList, " LDA L,X\n".toList] = .ok a ∧ a.image = some [0x12, 0xA6, 0x89, 0x00, 0x00] :=
+  image_of _ _ (by decide +kernel) fs
 
 /-- REPAIRED (batch B2; formerly `C04_finding_negative_equ`: `86 05`): a negative EQU constant keeps its sign,
 `X EQU -5`, `LDA #X` is `86 FB` -/
@@ -614,6 +676,43 @@ theorem C04_label_negative_constant (fs : Files) :
     ∃ a, assemble fs ["X EQU -5\n".toList, "L NOP\n".toList, " LDX #L+X\n".toList, " LDX #L-X\n".toList] = .ok a ∧
       a.image = some [0x12, 0x8E, 0xFF, 0xFB, 0x8E, 0x00, 0x05] :=
   image_of _ _ (by decide +kernel) fs
+
+/-- label expressions in the WRITTEN order, end to end (repair batch B3): `L` at `$1001`: `5-L` = 5 − `$1001` = `$F004`
+(modulo 65536), `$4000/L` = 3; the old model answered `$0FFC` and `$1001/$4000` = 0 -/
+theorem C04_label_order_programs (fs : Files) :
+    ∃ a, assemble fs [" ORG $1000\n".toList, " NOP\n".toList, "L FDB $2000\n".toList, " LDX #5-L\n".toList,
+        " LDX #$4000/L\n".toList] = .ok a ∧
+      a.image = some [0x12, 0x20, 0x00, 0x8E, 0xF0, 0x04, 0x8E, 0x00, 0x03] :=
+  image_of _ _ (by decide +kernel) fs
+
+/-- `L+N` with `N EQU -5` and `L` at address 1: −4, stored modulo 65536 as `$FFFC` (repair batch B3) — as an immediate
+`8E FF FC`, and before `,PCR` the operand aims at `$FFFC` (`A6 8C F4`: −12 from `$0008`), no longer 5 bytes behind `L` -/
+theorem C04_label_plus_negative_wraps (fs : Files) :
+    ∃ a, assemble fs ["N EQU -5\n".toList, " NOP\n".toList, "L NOP\n".toList, " LDX #L+N\n".toList,
+        " LDA L+N,PCR\n".toList] = .ok a ∧
+      a.image = some [0x12, 0x12, 0x8E, 0xFF, 0xFC, 0xA6, 0x8C, 0xF4] :=
+  image_of _ _ (by decide +kernel) fs
+
+/-- `L-X` with `X EQU -5` and `L` at `$FFFE`: `$FFFE + 5` leaves the 16 bits, a diagnostic ("integer value cannot
+exceed 65535"); `L+X` in the same place is `$FFF9` -/
+theorem C04_label_minus_negative_overflow (fs : Files) :
+    assemble fs [" ORG $FFFE\n".toList, "X EQU -5\n".toList, "L NOP\n".toList, " LDX #L-X\n".toList] = .diag ∧
+    ∃ a, assemble fs [" ORG $FFFE\n".toList, "X EQU -5\n".toList, "L NOP\n".toList, " LDX #L+X\n".toList] = .ok a ∧
+      a.image = some [0x12, 0x8E, 0xFF, 0xF9] :=
+  ⟨progDiag_sound (by decide +kernel) fs, image_of _ _ (by decide +kernel) fs⟩
+
+/-- all four operators, both orders, a negative constant (`N EQU -2`, `L` at `$10`): `L*N` = −32 (`$FFE0`), `L/N` = −8
+(`$FFF8`), `N/L` = 0 (truncation towards zero), `N-L` = −18 (`$FFEE`), `7/L` = 0, `L/7` = 2, `N*L` = `$FFE0`; and a
+division BY a label at address 0 is a diagnostic -/
+theorem C04_label_signed_programs (fs : Files) :
+    (∃ a, assemble fs [" ORG $10\n".toList, "N EQU -2\n".toList, "L NOP\n".toList, " LDX #L*N\n".toList,
+        " LDX #L/N\n".toList, " LDX #N/L\n".toList, " LDX #N-L\n".toList, " LDX #7/L\n".toList, " LDX #L/7\n".toList,
+        " LDX #N*L\n".toList] = .ok a ∧
+      a.image = some [0x12, 0x8E, 0xFF, 0xE0, 0x8E, 0xFF, 0xF8, 0x8E, 0x00, 0x00, 0x8E, 0xFF, 0xEE, 0x8E, 0x00, 0x00,
+        0x8E, 0x00, 0x02, 0x8E, 0xFF, 0xE0]) ∧
+    assemble fs ["L NOP\n".toList, " LDX #7/L\n".toList] = .diag ∧
+    assemble fs ["L NOP\n".toList, "M NOP\n".toList, " LDX #M/L\n".toList] = .diag :=
+  ⟨image_of _ _ (by decide +kernel) fs, progDiag_sound (by decide +kernel) fs, progDiag_sound (by decide +kernel) fs⟩
 
 /-! ### the full-strength statement, now proved -/
 
@@ -708,6 +807,94 @@ theorem C04_Statement_false_fixed :
     (by decide)]
   rfl
 
+/-! ### the label part: `calculate_address_offset` (repair batch B3) -/
+
+/-- what one operand of a label expression denotes once the statements have addresses: a label the address of its
+statement, a number its signed value -/
+inductive OperandValue (ss : List Stmt) : Value → Int → Prop
+  | label {i a : Nat} {m : Mode} : addrIntOf ss i = some a → OperandValue ss (.address i m) (a : Int)
+  | number {k : Nat} {h : Option Nat} {m : Mode} {neg : Bool} : OperandValue ss (.numeric k h m neg) (sval k neg)
+
+/-- **the label part of C04** (expressions with at least one label, evaluated after layout): for operands that are
+labels or numbers, in ANY combination and ORDER, the result is `left op right` on the denoted integers; a result below
+zero is stored modulo 65536 (an address), one above 65535 and a division by zero are diagnostics; an operand that is
+neither a label nor a number makes the expression an "unresolved expression" diagnostic -/
+def C04_LabelStatement : Prop :=
+  (∀ (ss : List Stmt) (l r : Value) (x y : Int) (op : Char) (m : Mode) (ae : Bool), opChar op = true →
+    OperandValue ss l x → OperandValue ss r y →
+    match arith op x y with
+    | none => addrOffset ss (.expr l r op m ae) = .diag
+    | some z =>
+      if (if z < 0 then z % 65536 else z) ≤ 65535 then
+        addrOffset ss (.expr l r op m ae) =
+          .ok (.numeric (if z < 0 then z % 65536 else z).toNat (some 4) .extended false)
+      else addrOffset ss (.expr l r op m ae) = .diag) ∧
+  (∀ (ss : List Stmt) (l r : Value) (op : Char) (m : Mode) (ae : Bool),
+    l.isAddress = false → l.isNumeric = false → addrOffset ss (.expr l r op m ae) = .diag) ∧
+  (∀ (ss : List Stmt) (l r : Value) (x : Int) (op : Char) (m : Mode) (ae : Bool), OperandValue ss l x →
+    r.isAddress = false → r.isNumeric = false → addrOffset ss (.expr l r op m ae) = .diag)
+
+theorem OperandValue.opd {ss : List Stmt} {v : Value} {x : Int} (h : OperandValue ss v x) : AddrOpd ss v x := by
+  cases h with
+  | label h => exact .label h
+  | number => exact .num
+
+/-- the specification's arithmetic is `calculate_address_offset`'s, on the four operators -/
+theorem arith_eq_addrArith (op : Char) (hop : opChar op = true) (x y : Int) : arith op x y = addrArith op x y := by
+  simp only [opChar, Bool.or_eq_true, beq_iff_eq] at hop
+  rcases hop with ((rfl | rfl) | rfl) | rfl <;> simp [arith, addrArith]
+
+/-- **the label part of C04, proved** -/
+theorem C04_label_full : C04_LabelStatement := by
+  refine ⟨?_, ?_, ?_⟩
+  · intro ss l r x y op m ae hop hl hr
+    rw [arith_eq_addrArith op hop, addrOffset_opd hl.opd hr.opd]
+    cases addrArith op x y with
+    | none => rfl
+    | some z =>
+      simp only
+      by_cases hw : addrWrap z > 65535
+      · have : ¬ (if z < 0 then z % 65536 else z) ≤ 65535 := by unfold addrWrap at hw; omega
+        simp [hw, this]
+      · have : (if z < 0 then z % 65536 else z) ≤ 65535 := by unfold addrWrap at hw; omega
+        simp only [hw, this, if_false, if_true]; rfl
+  · intro ss l r op m ae h1 h2
+    exact addrOffset_other_addr ss m ae op l r h1 h2
+  · intro ss l r x op m ae hl h1 h2
+    rw [addrOffset_expr, hl.opd.operand, addrOperand_other ss r h1 h2]
+
+/-- C04 with its label part -/
+theorem C04_full_with_labels : C04_Statement ∧ C04_LabelStatement := ⟨C04_full, C04_label_full⟩
+
+/-- non-vacuity of the label part on a two-statement list (`L` is statement 1 at address 100): `5-L` = −95 mod 65536,
+`L-5` = 95, `L/0` a diagnostic, `$4000/L` = 163, `L*L` = 10000 -/
+example :
+    let ss : List Stmt := [{ (default : Stmt) with pkg := { address := .numeric 97 (some 4) .extended false } },
+                           { (default : Stmt) with pkg := { address := .numeric 100 (some 4) .extended false } }]
+    addrOffset ss (.expr (.numeric 5 (some 2) .direct false) (.address 1 .none) '-' .extended true) =
+        .ok (.numeric 65441 (some 4) .extended false) ∧
+    addrOffset ss (.expr (.address 1 .none) (.numeric 5 (some 2) .direct false) '-' .extended true) =
+        .ok (.numeric 95 (some 4) .extended false) ∧
+    addrOffset ss (.expr (.address 1 .none) (.numeric 0 (some 2) .direct false) '/' .extended true) = .diag ∧
+    addrOffset ss (.expr (.numeric 0x4000 none .extended false) (.address 1 .none) '/' .extended true) =
+        .ok (.numeric 163 (some 4) .extended false) ∧
+    addrOffset ss (.expr (.address 1 .none) (.address 1 .none) '*' .extended true) =
+        .ok (.numeric 10000 (some 4) .extended false) := by
+  intro ss
+  have h : addrIntOf ss 1 = some 100 := rfl
+  have p := C04_label_full.1 ss
+  refine ⟨?_, ?_, ?_, ?_, ?_⟩
+  · have q := p (.numeric 5 (some 2) .direct false) (.address 1 .none) _ _ '-' .extended true (by decide) .number (.label h)
+    simpa [arith, sval] using q
+  · have q := p (.address 1 .none) (.numeric 5 (some 2) .direct false) _ _ '-' .extended true (by decide) (.label h) .number
+    simpa [arith, sval] using q
+  · have q := p (.address 1 .none) (.numeric 0 (some 2) .direct false) _ _ '/' .extended true (by decide) (.label h) .number
+    simpa [arith, sval] using q
+  · have q := p (.numeric 0x4000 none .extended false) (.address 1 .none) _ _ '/' .extended true (by decide) .number (.label h)
+    simpa [arith, sval] using q
+  · have q := p (.address 1 .none) (.address 1 .none) _ _ '*' .extended true (by decide) (.label h) (.label h)
+    simpa [arith] using q
+
 /-! ### non-vacuity: concrete expressions through `createV` and `resolve` -/
 
 example : ∃ v, createV "5+3".toList false false = .ok v ∧
@@ -746,6 +933,8 @@ section axioms
 open CoCo.Props
 #print axioms C04_partial
 #print axioms C04_full
+#print axioms C04_label_full
+#print axioms C04_label_order_programs
 #print axioms resolve_symbols_signed
 #print axioms C04_negative_extended
 #print axioms C04_negative_equ_word
